@@ -332,7 +332,7 @@ func main() {
 		}
 		desc := sc.name + ": " + strings.Join(names, " || ")
 		for b := 0; b <= bound; b++ {
-			cfg := vsched.Config{Name: sc.name, Bound: b, Stall: 120 * time.Second}
+			cfg := vsched.Config{Name: sc.name, Bound: b, Stall: 120 * time.Second, Deadline: run.DeadlineIn(time.Duration(run.Pick(120, 600)) * time.Second)}
 			if run.OutOfTime() {
 				exhaustive = false
 				break
@@ -372,7 +372,9 @@ func main() {
 	o1, _, _, _ := vsched.Replay(vsched.Config{}, []int{1, 0, 1}, body(sc))
 	o2, _, _, _ := vsched.Replay(vsched.Config{}, []int{1, 0, 1}, body(sc))
 	if fmt.Sprint(o1) != fmt.Sprint(o2) {
-		ev.Fatal("replay of one schedule gave different observations: %v vs %v", o1, o2)
+		// the dispatcher under the same schedule behaved differently (for instance an iteration order of its own):
+		// the schedules explored above do not determine its behaviour, so the bound is not covered; not a verdict
+		run.Capped(fmt.Sprintf("determinism probe: could not be set up: replay of one schedule gave different observations: %v vs %v", o1, o2))
 	}
 	run.Set("states", states)
 	run.Set("transitions", totalDec)
